@@ -8,8 +8,12 @@ EXTENDS TcpMux, Json
 CONSTANT TraceFile
 Tr == ndJsonDeserialize(TraceFile)
 VARIABLES l,
-          cc    \* the driver has started Close on a goroutine of its own, which has not reached m.mu.Lock() yet
-tv == <<vars, l, cc>>
+          cc,   \* the driver has started Close on a goroutine of its own, which has not reached m.mu.Lock() yet
+          held  \* the driver holds the gate at AddConn's yield point: a handleConn that has found its packet conn stays at "add"
+tv == <<vars, l, cc, held>>
+\* the mux's own steps while the gate is held: everything but the AddConn step
+InternalT == Internal /\ (held => \A c \in Clients : hc[c] = "add" => hc'[c] = "add")
+QuietT == IF held THEN ~ENABLED InternalT ELSE Quiet
 J == Tr[l]
 FirstFor(h) == \A g \in 1..(h - 1) : handles[g] # handles[h]
 ObsOK(o) ==
@@ -21,11 +25,12 @@ ObsOK(o) ==
   /\ o.cret = (clS = "ret" \/ c2S = "ret") /\ o.lc = lclosed      \* "a Close call has returned"
 \* the driver is between two calls: not inside RemoveConnByUfrag; if it waited, the mux is idle and looks as logged
 Ready == /\ l <= Len(Tr) /\ rmS = "idle"
-         /\ J.w => Quiet /\ ~cc /\ ObsOK(J.pre)
-Ev0(e) == Ready /\ J.ev = e /\ l' = l + 1 /\ UNCHANGED <<races, c2S>>
+         /\ J.w => QuietT /\ ~cc /\ ObsOK(J.pre)
+Ev1(e) == Ready /\ J.ev = e /\ l' = l + 1 /\ UNCHANGED <<races, c2S>>
+Ev0(e) == Ev1(e) /\ UNCHANGED held
 Ev(e) == Ev0(e) /\ UNCHANGED rmTodo
-TInit == Init /\ l = 1 /\ cc = FALSE
-TReset == /\ l <= Len(Tr) /\ J.ev = "Reset" /\ l' = l + 1
+TInit == Init /\ l = 1 /\ cc = FALSE /\ held = FALSE
+TReset == /\ l <= Len(Tr) /\ J.ev = "Reset" /\ l' = l + 1 /\ held' = FALSE
           /\ beh' = [c \in Clients |-> IF c <= Len(J.beh) THEN J.beh[c] ELSE "silent"]
           /\ cst' = [c \in Clients |-> "idle"] /\ sent' = [c \in Clients |-> 0] /\ pipe' = [c \in Clients |-> <<>>]
           /\ sclosed' = [c \in Clients |-> FALSE] /\ rx' = [c \in Clients |-> <<>>]
@@ -37,8 +42,10 @@ TReset == /\ l <= Len(Tr) /\ J.ev = "Reset" /\ l' = l + 1
           /\ rmS' = "idle" /\ clS' = "idle" /\ clTodo' = {} /\ c2S' = "idle" /\ rmTodo' = {}
           /\ handles' = <<>> /\ delivered' = [i \in Ids |-> <<>>] /\ seenClosed' = [i \in Ids |-> FALSE]
           /\ stale' = FALSE /\ gets' = 0 /\ rms' = 0 /\ adv' = 0 /\ reps' = 0 /\ races' = 0 /\ cc' = FALSE
-TNext == \/ Internal /\ UNCHANGED <<l, races, cc>>
-         \/ cc /\ CloseLock /\ cc' = FALSE /\ UNCHANGED <<l, races, c2S, rmTodo>>
+TNext == \/ InternalT /\ UNCHANGED <<l, races, cc, held>>
+         \/ cc /\ CloseLock /\ cc' = FALSE /\ UNCHANGED <<l, races, c2S, rmTodo, held>>
+         \/ Ev1("HoldAdd") /\ held' = TRUE /\ UNCHANGED <<mvars, rmTodo, cc>>
+         \/ Ev1("FreeAdd") /\ held' = FALSE /\ UNCHANGED <<mvars, rmTodo, cc>>
          \/ TReset
          \/ Ev("Dial") /\ UNCHANGED cc /\ Dial(J.c)
          \/ Ev("Send") /\ UNCHANGED cc /\ ClientSend(J.c) /\ sent'[J.c] = J.k
@@ -47,14 +54,14 @@ TNext == \/ Internal /\ UNCHANGED <<l, races, cc>>
          \/ Ev0("Remove") /\ UNCHANGED cc /\ RemoveBegin(J.u)
          \/ Ev("Close") /\ clS = "idle" /\ ~cc /\ cc' = TRUE /\ UNCHANGED mvars
          \* a second Close call while the first is under way (or has not reached the lock yet)
-         \/ Ready /\ J.ev = "Close" /\ (cc \/ clS # "idle") /\ c2S = "idle" /\ c2S' = "want" /\ l' = l + 1 /\ UNCHANGED <<mvars, races, cc, rmTodo>>
+         \/ Ready /\ J.ev = "Close" /\ (cc \/ clS # "idle") /\ c2S = "idle" /\ c2S' = "want" /\ l' = l + 1 /\ UNCHANGED <<mvars, races, cc, rmTodo, held>>
          \/ Ev("Advance") /\ UNCHANGED cc /\ Advance
          \/ Ev("Reply") /\ UNCHANGED cc /\ Reply(handles[J.h], J.c) /\ reps' = J.r
                         /\ (J.ok <=> (J.c \in pcs[handles[J.h]].conns /\ ~sclosed[J.c] /\ cst[J.c] = "open"))
          \/ Ev("Skipped") /\ UNCHANGED cc /\ UNCHANGED mvars
          \/ Ev("HAbort") /\ UNCHANGED cc /\ UNCHANGED mvars     \* deadline + Close on one of several handles: private to that handle
          \/ Ev("End") /\ UNCHANGED cc /\ UNCHANGED mvars
-         \/ l <= Len(Tr) /\ J.ev = "Exit" /\ l' = l + 1 /\ UNCHANGED <<vars, cc>>
+         \/ l <= Len(Tr) /\ J.ev = "Exit" /\ l' = l + 1 /\ UNCHANGED <<vars, cc, held>>
 TSpec == TInit /\ [][TNext]_tv
 \* high-water mark of the trace position (one worker)
 HWM == IF l > TLCGet(1) THEN TLCSet(1, l) ELSE TRUE
